@@ -473,6 +473,157 @@ fn context_reuse(rep: &Report, rounds: usize, seed: u64) {
     });
 }
 
+/// A program given to one context piece by piece (data lines, macro definitions, whole procedures, single statements),
+/// with refused pieces in between (a label defined twice, constants out of range, a `set` beyond 16 bits, a macro use
+/// whose expansion is refused, a half statement), must end up exactly like the same program given at once without the
+/// refused pieces: code, data, labels and procedures. (The library's own tests feed a context piecewise.)
+fn piecewise(rep: &Report, n: usize, seed: u64) {
+    par_for(n, 2, |i| {
+        let core = i < 60;
+        let mut rng = if core { Rng::new(0xC19E).fork(i as u64) } else { Rng::new(seed).fork(0xC19E_0000 + i as u64) };
+        let (data, _bl, _wl) = rand_data(&mut rng, 2, 2);
+        let mut p = structured_program(&mut rng, &SOpts { prints: i % 3 == 0, max_blocks: 2 + i % 5, ..Default::default() });
+        p.data = data;
+        let text = p.render_plain().text;
+        // pieces
+        let mut pieces: Vec<String> = Vec::new();
+        let mut cur = String::new();
+        let mut in_def = false;
+        for l in text.lines() {
+            if l.trim().is_empty() {
+                continue;
+            }
+            if in_def {
+                cur.push_str(l);
+                cur.push('\n');
+                if l.trim() == "}" {
+                    in_def = false;
+                    pieces.push(std::mem::take(&mut cur));
+                }
+                continue;
+            }
+            if l.trim_start().starts_with("def ") && !l.contains('}') {
+                in_def = true;
+                cur.push_str(l);
+                cur.push('\n');
+                continue;
+            }
+            pieces.push(format!("{}\n", l));
+        }
+        if in_def {
+            return;
+        }
+        // a macro of the harness's own for refusals inside an expansion; data first, so it goes behind the data lines
+        let first_non_data = pieces.iter().position(|x| {
+            let t = x.trim_start().to_ascii_lowercase();
+            !(t.starts_with("set ") || t.contains(": db") || t.contains(": dw") || t.starts_with("db ") || t.starts_with("dw "))
+        });
+        let at = first_non_data.unwrap_or(pieces.len());
+        pieces.insert(at, "macro zzimm(v) -> mov al,v <-\n".into());
+        let whole: String = pieces.concat();
+        let fresh = {
+            let mut f = Session::new();
+            let r = f.parse(&whole);
+            (r.is_ok(), f.finish())
+        };
+        if !fresh.0 {
+            rep.count("piecewise programs refused as a whole (not judged)", 1);
+            return;
+        }
+        let mut sess = Session::new();
+        let mut labels_seen: Vec<String> = Vec::new();
+        let mut hist: Vec<String> = Vec::new();
+        let mut code_started = false;
+        for pc in &pieces {
+            // refused pieces in front of this one
+            if rng.chance(1, 3) {
+                let cands: Vec<String> = {
+                    let mut c: Vec<String> = vec!["mov al,300\n".into(), "set 70000\n".into(), "mov ax,\n".into(), "frob ax\n".into(), "jmp\n".into(), "mov bl, 0x1FF\n".into()];
+                    if code_started {
+                        c.push("zzimm(300)\n".into());
+                        c.push("zzimm(70000)\n".into());
+                        c.push("int 5\n".into());
+                        c.push("INT 0x20\n".into());
+                        c.push("shl ax,300\n".into());
+                        c.push("in al,5\n".into());
+                        c.push("call nosuch_procedure_zz\n".into());
+                    }
+                    if let Some(l) = labels_seen.last() {
+                        c.push(format!("{}:\n", l));
+                        c.push(format!("{}: mov dx,9\n", l));
+                    }
+                    c
+                };
+                let bad = &cands[rng.below(cands.len())];
+                let r = sess.parse(bad);
+                hist.push(format!("{:?} -> {}", bad, if r.is_ok() { "accepted" } else { "refused" }));
+                if r.is_ok() {
+                    // (e.g. a data-like line in an unexpected place): not a refused piece after all, give this case up
+                    rep.count("piecewise cases given up: an intended refusal was accepted", 1);
+                    return;
+                }
+            }
+            let r = sess.parse(pc);
+            if r.is_err() {
+                rep.fail(Failure {
+                    sig: "reuse:piecewise:valid-piece-refused".into(),
+                    what: "C19: a piece of a valid program is refused when the context has met refused pieces before".into(),
+                    witness: format!("{{\"kind\": \"src-sequence\", \"refused_before\": {:?}, \"piece\": {}, \"result\": {}, \"whole_program\": {}}}", hist, json_str(pc), json_str(&format!("{:?}", r)), json_str(&whole)),
+                    core_item: if core { Some(format!("{}|refused", i)) } else { None },
+                });
+                return;
+            }
+            let t = pc.trim();
+            if t.starts_with("start:") {
+                code_started = true;
+            }
+            if let Some(pos) = t.find(':') {
+                let name = &t[..pos];
+                if code_started && !name.is_empty() && name.chars().all(|c| c.is_ascii_alphanumeric() || c == '_') {
+                    labels_seen.push(name.to_string());
+                }
+            }
+        }
+        rep.eval(1);
+        rep.count("programs assembled piece by piece with refused pieces in between", 1);
+        rep.distinct_str(&format!("piecewise|{}|{}", pieces.len().min(30), hist.len().min(6)));
+        let used = sess.finish();
+        let f = &fresh.1;
+        let mut lab_u: Vec<_> = used.labels.iter().collect();
+        lab_u.sort();
+        let mut lab_f: Vec<_> = f.labels.iter().collect();
+        lab_f.sort();
+        let mut fn_u: Vec<_> = used.fn_map.iter().collect();
+        fn_u.sort();
+        let mut fn_f: Vec<_> = f.fn_map.iter().collect();
+        fn_f.sort();
+        let comp = if used.code != f.code {
+            Some("code")
+        } else if used.data != f.data {
+            Some("data")
+        } else if lab_u != lab_f {
+            Some("labels")
+        } else if fn_u != fn_f {
+            Some("procedures")
+        } else {
+            None
+        };
+        if let Some(c) = comp {
+            let detail = match c {
+                "labels" => format!("piecewise {:?} whole {:?}", lab_u.iter().filter(|x| !lab_f.contains(x)).collect::<Vec<_>>(), lab_f.iter().filter(|x| !lab_u.contains(x)).collect::<Vec<_>>()),
+                "data" => format!("piecewise {:?} whole {:?}", used.data, f.data),
+                _ => String::new(),
+            };
+            rep.fail(Failure {
+                sig: format!("reuse:piecewise:{}", c),
+                what: format!("C19: a program assembled piece by piece, with refused pieces in between, ends up with different {} than the same program assembled at once", c),
+                witness: format!("{{\"kind\": \"src-sequence\", \"refused_pieces\": {:?}, \"whole_program\": {}, \"detail\": {}}}", hist, json_str(&whole), json_str(&detail)),
+                core_item: if core { Some(format!("{}|{}", i, c)) } else { None },
+            });
+        }
+    });
+}
+
 fn parser_reuse(rep: &Report, rounds: usize, seed: u64) {
     par_for(rounds, 1, |i| {
         let core = i < 8;
@@ -748,6 +899,7 @@ pub fn run(rep: &Report) {
     interleavings(rep, if t { 60_000 } else { 1500 }, rep.seed);
     parser_reuse(rep, if t { 1500 } else { 48 }, rep.seed);
     context_reuse(rep, if t { 6000 } else { 140 }, rep.seed);
+    piecewise(rep, if t { 20_000 } else { 400 }, rep.seed);
     fresh_machines(rep, if t { 2000 } else { 100 }, rep.seed);
     threads(rep, if t { 200 } else { 6 }, rep.seed);
     rep.floor("CLI runs compared", rep.counter("CLI runs compared"), 1000);
